@@ -174,7 +174,7 @@ theorem Bal_G_ops (h0 : Nat → Nat) (s : St) (op : Op) (s' : St) (r : String) (
       · have h3 := key s hI rfl
         rw [hdi] at h3; exact h3
 
-set_option maxHeartbeats 1000000 in
+set_option maxHeartbeats 400000 in
 theorem Bal_simple (h0 : Nat → Nat) (s : St) (op : Op) (s' : St) (r : String) (hI : Bal h0 s)
     (h : stepSimple s op = some (s', r)) : Bal h0 s' := by
   cases op
